@@ -1016,6 +1016,43 @@ func runC13(rc *RunCtx) {
 			step(&ct.MsgUpdateSignatureThreshold{From: Acct(OwnerIx), Amount: 1}, "threshold-by-non-manager")
 		}
 	}
+	// a large attester set (more entries than any page or batch size a list reader might use): the count that the
+	// threshold is compared with must stay exact
+	if rc.Shard == 0 {
+		big := ref.KeyPool(136)
+		e, err := StdEngine(rc, false, false, func(gs *ct.GenesisState, cfg *chain.Config) {
+			gs.AttesterList = nil
+			for i := 0; i < 125; i++ {
+				gs.AttesterList = append(gs.AttesterList, ct.Attester{Attester: big[i].Spell(i % 4)})
+			}
+			gs.SignatureThreshold = &ct.SignatureThreshold{Amount: 1}
+		})
+		if err != nil {
+			rc.Cov.Inconclusive("large attester set: " + err.Error())
+		} else {
+			e.LightQueries = true
+			am := e.M.AM
+			lstep := func(m sdk.Msg, kind string) {
+				r := e.Exec(Tx{Msgs: msgs1(m), Note: fmt.Sprintf("C13 large attester set (%d enabled, threshold %d)", len(e.M.Attesters), e.M.Threshold)})
+				rc.Cov.Cell("C13_large_set", fmt.Sprintf("%s/%s", kind, okWord(r.OK)))
+			}
+			for i := 125; i < 134; i++ {
+				lstep(&ct.MsgEnableAttester{From: am, Attester: big[i].Spell(i % 4)}, "enable")
+				n := uint32(len(e.M.Attesters))
+				lstep(&ct.MsgUpdateSignatureThreshold{From: am, Amount: n + 1}, "threshold-n+1")
+				lstep(&ct.MsgUpdateSignatureThreshold{From: am, Amount: n}, "threshold-n")
+				lstep(&ct.MsgDisableAttester{From: am, Attester: big[i].Spell(i % 4)}, "disable-at-threshold")
+				lstep(&ct.MsgDisableAttester{From: am, Attester: big[0].Spell(0)}, "disable-first-at-threshold")
+				lstep(&ct.MsgUpdateSignatureThreshold{From: am, Amount: n - 1}, "threshold-n-1")
+				if i%3 == 0 { // shrink and regrow across the boundary
+					lstep(&ct.MsgDisableAttester{From: am, Attester: big[i].Spell(i % 4)}, "disable")
+					lstep(&ct.MsgUpdateSignatureThreshold{From: am, Amount: n}, "threshold-n-after-disable")
+					lstep(&ct.MsgEnableAttester{From: am, Attester: big[i].Spell(i % 4)}, "re-enable")
+				}
+			}
+			e.FullQueryCheck(nil, []uint64{1, 64, 127, 128, 129, 200})
+		}
+	}
 	rc.Cov.Extra["states"] = float64(states)
 	rc.Cov.Extra["transitions"] = float64(transitions)
 	rc.Cov.Extra["exhaustive"] = true
